@@ -31,17 +31,20 @@ VALUES = (0, 1, -1, 3.5, "x", "", None, b"\x00", [], {}, True, 2**70)
 def snapshot(m):
     """Observable state: payload, identity, PUBLIC attribute values, string form, repr, serialised bytes.
     Private slots are deliberately left out (a memoised str()/serialize() may legitimately add one)."""
+    s0 = str(m)  # string form BEFORE serialising in this snapshot ...
     try:
         ser = m.serialize()
     except Exception as e:  # e.g. payload too long for the 16-bit length: part of the observable state too
         ser = ("raises", type(e).__name__)
-    s_, r_ = str(m), repr(m)
+    s_, r_ = str(m), repr(m)  # ... and after: all string forms ever observed must be one and the same
     d = {k: v for k, v in m.__dict__.items() if not k.startswith("_")}
-    return (m.payload, m.identity, tuple(d.items()), s_, r_, ser, m.ismsm)
+    return (m.payload, m.identity, tuple(d.items()), (s0, s_), r_, ser, m.ismsm)
 
 
 def snap_equal(a, b):
-    if a[0] != b[0] or a[1] != b[1] or a[3:] != b[3:] or len(a[2]) != len(b[2]):
+    if len({a[3][0], a[3][1], b[3][0], b[3][1]}) != 1:
+        return False
+    if a[0] != b[0] or a[1] != b[1] or a[4:] != b[4:] or len(a[2]) != len(b[2]):
         return False
     for (k1, v1), (k2, v2) in zip(a[2], b[2]):
         if k1 != k2:
